@@ -29,8 +29,9 @@ Msg == /\ l <= Len(Rec) /\ Rec[l].ev = "msg"
        /\ LET ev   == Rec[l]
               post == StOfJson(ev.post)
               outs == MsgOutcomes(st, env, ev.units, ev.mav)
-              ok   == \E o \in outs : /\ o.ret = ev.ret /\ o.st = post
-                                      /\ (o.ret = NoErr => o.resps = ev.resps)
+              ok   == /\ \E o \in outs : /\ o.ret = ev.ret /\ o.st = post
+                                         /\ (o.ret = NoErr => o.resps = ev.resps)
+                      /\ ev.hook = (IF ev.ret = NoErr THEN 0 ELSE 1)      \* the error hook ran exactly once iff the message failed
           IN /\ (IF ok THEN TRUE ELSE PrintT(<<"BAD", l, ToJson([allowed |-> {[ret |-> o.ret, resps |-> o.resps, post |-> StJson(o.st)] : o \in outs}])>>))
              /\ st' = post
        /\ env' = env /\ l' = l + 1
